@@ -1148,6 +1148,27 @@ def gen_insert_inline(src, W, suffix):
             f"def insert_stack_{suffix} (t_sz t_bits e : Nat) : Except String (Option (Nat × Bool)) := "
             f"(tiny_insert_{suffix} t_sz t_bits e).map (fun o => o.map (fun newt => (tiny_to_usize_{suffix} newt.1 newt.2, decide (newt.1 ≠ t_sz))))"]
 
+def gen_remove_inline(src, W, suffix):
+    """the `Stack` arm of `remove`: membership by running the inline iterator, then the empty word or `collect()` of the
+    remaining members (shape pinned; the list handed to `collect()` is read off it)"""
+    ty = "u64" if W == 64 else "u32"
+    st = "SetU64" if W == 64 else "SetU32"
+    m = re.search(r'\n    pub fn remove\(&mut self, e: %s\) -> bool \{' % ty, src)
+    if not m:
+        raise TieError(f"cannot find remove ({suffix})")
+    body = body_of(src, m.end() - 1)[0]
+    pat = (r'InternalMut::Empty => false,\s*InternalMut::Stack\(t\) => \{\s*if t\.clone\(\)\.any\(\|x\| x == e\) \{\s*let sz = t\.sz - 1;\s*'
+           r'if sz == 0 \{\s*\*self = %s\(0 as \*mut S\);\s*\} else \{\s*\*self = t\.filter\(\|&x\| x != e\)\.collect\(\);\s*\}\s*true\s*\} else \{\s*false\s*\}\s*\}' % st)
+    if not re.search(pat, body):
+        raise TieError(f"remove ({suffix}): the inline arm")
+    return [f"/-- `Stack` arm of `remove`: `none` — not a member (answer `false`, set unchanged); `some none` — the last member\n"
+            f"(the set becomes the null word); `some (some v)` — `v` is what `t.filter(|&x| x != e)` yields, handed to `collect()` -/\n"
+            f"def remove_stack_{suffix} (t_sz t_bits e : Nat) : Option (Option (List Nat)) :=\n"
+            f"  if tiny_any_{suffix} t_sz t_bits e = true then\n"
+            f"    (if t_sz - 1 = 0 then some none\n"
+            f"     else some (some ((tiny_drain_{suffix} t_sz (t_sz + 1) 0 t_bits 0).filter (fun x => decide (x ≠ e)))))\n"
+            f"  else none"]
+
 def gen_iter_stack(isrc, W, suffix):
     """the `Stack` arm of `Inner::next` (iter.rs): one step of the iteration over an inline set"""
     ty = "u64" if W == 64 else "u32"
@@ -1397,6 +1418,7 @@ def gen_loops(s64, s32, i64=None, i32=None, csrc=None, ssrc=None):
         out += gen_tiny_next(src, W, suffix)
         out += gen_tiny_insert(src, W, suffix)
         out += gen_insert_inline(src, W, suffix)
+        out += gen_remove_inline(src, W, suffix)
         isrc = i64 if W == 64 else i32
         if isrc is not None:
             out += gen_iter_stack(isrc, W, suffix)
